@@ -36,6 +36,7 @@ type Instance struct {
 	Roles    map[string]Role // hoisted variable name -> role
 	Src      string
 	TypeErrs []string
+	T2       []string // hoisting-discipline problems found while rendering (X only)
 	// expectations from the description (X) / the source directive (Y)
 	NTasks, NPreds       int
 	Instrumented         bool // directive-level instrumentation
